@@ -1180,7 +1180,8 @@ func (eval Evaluator) MulThenAdd(op0 *rlwe.Ciphertext, op1 rlwe.Operand, opOut *
 			return fmt.Errorf("cannot MulThenAdd: %w", err)
 		}
 
-		opOut.Resize(op0.Degree(), opOut.Level())
+		// The accumulator keeps its degree if it is larger than op0's and goes down to the common level.
+		opOut.Resize(utils.Max(op0.Degree(), opOut.Degree()), level)
 
 		ringQ := eval.parameters.RingQ().AtLevel(level)
 
@@ -1223,7 +1224,8 @@ func (eval Evaluator) MulThenAdd(op0 *rlwe.Ciphertext, op1 rlwe.Operand, opOut *
 			return fmt.Errorf("cannot MulThenAdd: %w", err)
 		}
 
-		opOut.Resize(op0.Degree(), opOut.Level())
+		// The accumulator keeps its degree if it is larger than op0's and goes down to the common level.
+		opOut.Resize(utils.Max(op0.Degree(), opOut.Degree()), level)
 
 		// Instantiates new plaintext from buffer
 		pt, err := rlwe.NewPlaintextAtLevelFromPoly(level, eval.buffQ[0])
